@@ -44,6 +44,9 @@ REQUIRED = [
     'byConstituency_missing_district_witness', 'byConstituency_max_seats_forced_witness',
     # what the laws say
     'multistage_chain', 'multistage_nil', 'tieBreaking_noTie_sel', 'tieBreaking_noTie_dist', 'tieChoice_among',
+    'tieBreaking_ideal', 'replaceSel_eq_fill', 'fillTie_other_places', 'fillTie_length',
+    'byConstituency_ideal', 'byConstituency_pointwise', 'district_evaluated', 'district_without_seats',
+    'partyList_seats_exactly', 'closedList_ok',
     'chain_cons', 'chain_nil',
 ]
 
